@@ -50,6 +50,13 @@ CHECKS = {
         note="Trusted: TLC, h5py for inspecting files. Float payload fidelity is observed at the pool values only. Key ordering beyond 10^6 members is a stated bound, not replayed. Found and repaired F8 (track of mixed classes / broadcastable layouts written and read back unequal).",
         ref="§3 C08",
     ),
+    "C09": dict(
+        level="model_checking",
+        technique="TLA+ spec Outcome.tla (a call has exactly two transitions: Return with finite droplets, Raise with the documented error) whose input space is enumerated by TLC; every enumerated input executed by the real code and the recorded outcome validated by TraceOutcome.tla (code->spec)",
+        text="TLC enumerates (quick) 6.1e4 locate requests = option table (modes, refine, interface width, threshold rule, minimal radius, refinement arguments) x EVERY binary image of a 1x6 row, 3x3, 2x2x2, cylindrical 3x3 with and without periodic z, polar 4 and spherical 4 grid, plus constant, ramp and three-level noise images; all 54 droplet-class x grid-family rendering requests; all 80 (thorough 682) time courses of <=3-4 frames over {empty, one, two, moved} x tracking method. Every input (quick: a seeded half of the locate space) is run through locate_droplets (affinely rescaled intensities, all periodicity masks), get_phase_field (four droplets per request, on and off cell centres, widths None/0/positive, random amplitudes) or from_emulsion_time_course (1-3 dimensions, periodic grid or none, cut-off or none); the outcome must be a finite return (all droplet parameters; NaN only as unset width) or exactly the documented ValueError (modes in 1-D, dimension mismatch). TraceOutcome.tla accepts the recorded outcome classes.",
+        note="Trusted: TLC. 'Valid input' is the enumerated space (tiny grids, exhaustive binary images; larger grids sharded in the thorough tier) and the premise that supplied intensity levels are consistent with the image. Found and repaired F2 (distance tracking on an empty frame), F3, F4, F5.",
+        ref="§3 C09",
+    ),
     "C10": dict(
         level="model_checking",
         technique="TLA+ spec Overlap.tla (PickMin/Pop loop over exact surface-distance order) model-checked by TLC on integer lattices + spec->code replay by object identity + code->spec trace validation (TraceOverlap.tla)",
